@@ -45,6 +45,21 @@ def one(ctx, LP, D, ph, mode):
     drv = ctx.driver()
     n = len(ph) - 1
     g = LP.LAlg.unitary_from_angles(ph)
+    # glue correspondence: angseq recurses through the module-level name, so a recording wrapper sees every
+    # (left result, right result, merged result) triple of the divide-and-conquer recursion
+    merges, stack, orig = [], [[]], D.angseq
+
+    def wrapped(h):
+        stack.append([])
+        try:
+            r = orig(h)
+        finally:
+            kids = stack.pop()
+        if len(kids) == 2:
+            merges.append(([float(x) for x in kids[0]], [float(x) for x in kids[1]], [float(x) for x in r]))
+        stack[-1].append(list(r))
+        return r
+    D.angseq = wrapped
     try:
         with core.quiet():
             raw = D.angseq(g)
@@ -53,6 +68,8 @@ def one(ctx, LP, D, ph, mode):
         out = "ok"
     except Exception as e:  # noqa
         out, ph2 = type(e).__name__ + ": " + str(e)[:60], None
+    finally:
+        D.angseq = orig
     ctx.count("n=%d" % n if n <= 8 else "n>8")
     ctx.count("mode:" + mode)
     ctx.case([ph], True, {"n": n, "mode": mode, "phases": ph[:5], "outcome": out[:30]})
@@ -74,6 +91,17 @@ def one(ctx, LP, D, ph, mode):
         what = "rebuilt element differs by %.3e" % core.fl(v["bound"]) if v["bound"] > Fraction(1, 10 ** 8) else "phases do not equal the originals up to the sign gauge"
         ctx.violation("c06:roundtrip:n=%d" % n, "decomposition round trip fails: " + what, replay)
         return
+    # the list glue of every recursion step is the model's mergeAngles (C06c: Ucirc(merge a b) = Ucirc a * Ucirc b for
+    # every pair of lists); the one floating-point addition at the junction is the correctly rounded exact sum
+    for a_, b_, r_ in merges[:40]:
+        if not a_ or not b_:
+            continue
+        mo = core.pl(drv.ask("seq.merge %s %s" % (rl(F(x) for x in a_), rl(F(x) for x in b_))))
+        ctx.count("glue-compared")
+        if len(mo) != len(r_) or any(F(x) != (y if i != len(a_) - 1 else F(float(y))) for i, (x, y) in enumerate(zip(r_, mo))):
+            ctx.violation("c06:glue", "a recursion step of angseq does not glue its two phase lists as a[:-1] + [a[-1]+b[0]] + b[1:] (model: mergeAngles)",
+                          dict(replay, left=a_, right=b_, merged=r_), found_input=False)
+            return
     # literal clause: the library-built elements agree coefficient-wise within 1e-8 (exact rationals)
     g2 = LP.LAlg.unitary_from_angles(ph2)
     for comp, c1, c2 in (("I", g.IPoly, g2.IPoly), ("X", g.XPoly, g2.XPoly)):
@@ -85,7 +113,7 @@ def one(ctx, LP, D, ph, mode):
 
 
 def run(tier, seed):
-    ctx = core.Ctx(PROP, tier, seed, "translation_validation", ["C06", "C06b"])
+    ctx = core.Ctx(PROP, tier, seed, "translation_validation", ["C06", "C06b", "C06c"])
     ctx.axioms = core.audit(ctx.modules)
     import pyqsp.LPoly as LP
     import pyqsp.decomposition as D
@@ -110,7 +138,7 @@ def run(tier, seed):
 def replay(path):
     import json
     c = json.load(open(path))
-    ctx = core.Ctx(PROP, "quick", c.get("seed", 0), "translation_validation", ["C06", "C06b"])
+    ctx = core.Ctx(PROP, "quick", c.get("seed", 0), "translation_validation", ["C06", "C06b", "C06c"])
     import pyqsp.LPoly as LP
     import pyqsp.decomposition as D
     one(ctx, LP, D, c["phases"], c.get("mode", "?"))
